@@ -128,10 +128,18 @@ func (d *rd) open(entry, strength int, pers []byte) bool {
 	c := d.c
 	d.start = time.Now()
 	var err error
-	if !c.Call("constructor", func() { d.lib, d.fn, err = newLibPrng(d.g, entry, d.ls, strength, d.lv, pers) }) {
+	// the personalisation string in caller memory with dirty spare capacity (arena.go); it is inverted after the call
+	a, sl := lay(c.R, part{"personalization", pers, false})
+	defer a.scribble()
+	if !c.Call("constructor", func() { d.lib, d.fn, err = newLibPrng(d.g, entry, d.ls, strength, d.lv, sl[0]) }) {
 		return false
 	}
 	d.opened = time.Now()
+	c.Event("caller_memory_checks", 1)
+	if ch := a.changed(); ch != "" {
+		d.fail("oob", "%s(strength=%d, pers=%d) modified the caller's memory: %s", d.fn, strength, len(pers), ch)
+		return false
+	}
 	var merr error
 	d.model, merr = newModelPrng(d.g, scriptSource(d.ms), strength, d.lv, pers)
 	d.logf("%s(strength=%d, pers=%d)", d.fn, strength, len(pers))
@@ -168,11 +176,14 @@ func (d *rd) open(entry, strength int, pers []byte) bool {
 // read performs one Read of n bytes on both sides and judges it; false ends the case.
 func (d *rd) read(n int) bool {
 	c := d.c
-	buf := bytes.Repeat([]byte{fence}, n+16)
-	data := buf[8 : 8+n : 8+n]
-	for i := range data {
-		data[i] = marker
+	// marker-filled destination in caller memory, most of the time with dirty spare capacity behind it (arena.go)
+	mk := bytes.Repeat([]byte{marker}, n)
+	if n == 0 && c.R.Bool() {
+		mk = nil
 	}
+	a, sl := lay(c.R, part{"destination", mk, true})
+	data := sl[0]
+	defer a.scribble()
 	d.logf("Read(%d)", n)
 	var got int
 	var err error
@@ -180,11 +191,10 @@ func (d *rd) read(n int) bool {
 		d.over = true
 		return false
 	}
-	for i := 0; i < 8; i++ {
-		if buf[i] != fence || buf[8+n+i] != fence {
-			d.fail("oob", "%s Read(%d) wrote outside the buffer", d.g.name(), n)
-			return false
-		}
+	c.Event("caller_memory_checks", 1)
+	if ch := a.changed(); ch != "" {
+		d.fail("oob", "%s Read(%d) wrote outside the %d bytes of the destination: %s", d.g.name(), n, n, ch)
+		return false
 	}
 	if d.ls.Budget {
 		d.fail("hang", "%s Read(%d): unbounded retry - the wrapper asked the entropy source for more than %d bytes (the whole script needs a few hundred); it returned n=%d err=%v", d.g.name(), n, d.ls.MaxBytes, got, err)
@@ -270,6 +280,9 @@ func reader(x *mon.Ctx) {
 	per := x.Scale(24, 400)
 	for i := 0; i < per; i++ {
 		for _, g := range cfgs {
+			if !g.primary && i >= per*2/5 {
+				continue
+			}
 			rp := planReader(x, g, i)
 			c := x.Begin("reader cfg=%s #%d level=%s entry=%d strength=%d pers=%d reads=%d (entropy stream and Read sizes from {0,1,max-1,max,max+1,5max+3,random} drawn from the case PRNG)",
 				g.name(), i, rp.lv.ref.Name, i%2, rp.st, rp.lp, rp.nreads)
@@ -399,7 +412,7 @@ const faultCalls = 6 // source calls of the un-faulted script: entropy, nonce, f
 
 func faults(x *mon.Ctx) {
 	selfTests(x)
-	cfgs := configs()
+	cfgs := faultConfigs()
 	for gi, g := range cfgs {
 		st := 32
 		if g.mode == ref.GM && g.block() > 32 {
